@@ -12,6 +12,7 @@ cp -r /repo/go "$S/repo/go"
 rsync -a --exclude .git --exclude .build --exclude logs --exclude replay --exclude evidence /verif/ "$S/verif/"
 ( cd "$S/repo" && patch -p1 --no-backup-if-mismatch < "$PATCH" ) || { echo "patch failed"; exit 3; }
 sed -i "s|=> /repo/go|=> $S/repo/go|" "$S/verif/harness/go.mod"
+[ -n "${VERIF_KNOWN:-}" ] && cp "$VERIF_KNOWN" "$S/verif/known_findings.json"   # optional alternate known-findings file
 cd "$S/verif" && VERIF_ROOT="$S/verif" VERIF_REPO="$S/repo" VERIF_SEED="${VERIF_SEED:-1}" ./check "$PROP" "$TIER"
 rc=$?
 mkdir -p /verif/replay/mutant-last && rm -rf /verif/replay/mutant-last/* && cp -r "$S/verif/replay/." /verif/replay/mutant-last/ 2>/dev/null
